@@ -137,8 +137,23 @@ class World:
         inv = self.task(**a)
         rec = self.o.get_invocation_status_record(inv.invocation_id)
         if inv.invocation_id not in self.invs:      # (registration concurrency hands back the REGISTERED invocation of the key)
-            self.invs[inv.invocation_id] = {"args": ser, "path": "single"}
+            self.invs[inv.invocation_id] = {"args": ser, "path": "single", "raw": dict(a)}
         self.drv.ask(f"cc.route {tok(self.tname)} {tok(call.call_id.key)} {tok(inv.invocation_id)} {tok(rec.runner_id)} {self.clock.us} {kv(ser)}")
+
+    def submit_child(self, parent_id: str, a: dict[str, str]) -> None:
+        """the same submission made from INSIDE a running invocation (a task body that calls the task, e.g. with its own arguments):
+        who submits does not enter the concurrency key - the child competes with its parent like anybody else"""
+        from pynenc import context
+
+        parent = self.app.state_backend.get_invocation(parent_id)
+        prev = context.swap_dist_invocation_context(self.app.app_id, parent)
+        try:
+            before = set(self.invs)
+            self.submit_single(a)
+            for i in set(self.invs) - before:
+                self.invs[i]["path"] = "child-of-running"
+        finally:
+            context.swap_dist_invocation_context(self.app.app_id, prev)
 
     def submit_batch(self, arglist: list[dict[str, str]]) -> None:
         group = self.task.parallelize([dict(a) for a in arglist])
@@ -276,7 +291,13 @@ def scenario_random(w: World, nsteps: int) -> None:
             # a long pause: claims grow old (older than `max_pending_seconds`) - they still hold their key until somebody RECOVERS them
             w.clock.advance(3_600_000_000)
         r = rng.random()
-        if r < 0.30:
+        if r < 0.06 and running:
+            # a running invocation submits a call of its own task - with its OWN arguments more often than not
+            p = rng.choice(list(running))
+            own = {} if w.noargs else (dict(w.invs[p].get("raw") or {}) or draw_args(rng))
+            w.submit_child(p, own if rng.random() < 0.7 else ({} if w.noargs else draw_args(rng)))
+            w.check_statuses("submission from inside a running invocation")
+        elif r < 0.30:
             w.submit_single({} if w.noargs else draw_args(rng))
             w.check_statuses("single submission")
         elif r < 0.42 and (w.reg != "disabled" or w.noargs):
@@ -464,6 +485,44 @@ def two_tasks_probe(ctx: Ctx) -> None:
                                                                   f"handed out {x.invocation_id in got}, status {st} - tasks must not block one another",
                                {"backend": kind, "scenario": "two-tasks", "mode": mode.value, "other_is": hold})
                 flush(app)
+
+
+def child_of_running_probe(ctx: Ctx) -> None:
+    """who SUBMITS an invocation does not enter its concurrency key: a running invocation that calls its own task with its own key
+    (a body that fans out, a retry written by hand) gets a child that competes with it like any other invocation - the child is not
+    started while the parent runs"""
+    from pynenc import context
+    from pynenc.conf.config_task import ConcurrencyControlType as C
+
+    for kind in ("mem", "sqlite"):
+        for mode in (C.KEYS, C.ARGUMENTS, C.TASK):
+            app = make_app(kind, ctx.tmp, app_id=f"c06child{kind}{mode.value}{ctx.rng.randrange(10**6)}")
+            opts: dict[str, Any] = {"running_concurrency": mode}
+            if mode == C.KEYS:
+                opts["key_arguments"] = ("k",)
+            t = app.task(T.cc_body, **opts)
+            o = app.orchestrator
+            parent = t("a", "d", "e")
+            got = list(o.get_invocations_to_run(1, rctx("rA")))
+            o.set_invocation_status(parent.invocation_id, trs_status("running"), rctx("rA"))
+            prev = context.swap_dist_invocation_context(app.app_id, got[0])
+            try:
+                child = t("a", "d", "e")
+                other = t("b", "d", "e")          # control: another key (KEYS / ARGUMENTS) may run
+            finally:
+                context.swap_dist_invocation_context(app.app_id, prev)
+            handed = [g.invocation_id for g in o.get_invocations_to_run(2, rctx("rB"))]
+            authorised = o.is_authorize_to_run_by_concurrency_control(child) if hasattr(o, "is_authorize_to_run_by_concurrency_control") else None
+            st = o.get_invocation_status(child.invocation_id).value
+            ctx.count()
+            ctx.distinct((kind, "child-of-running", mode.value))
+            rep = {"backend": kind, "scenario": "child-of-running", "mode": mode.value}
+            if child.invocation_id in handed or st in ("pending", "running") or authorised:
+                ctx.report(f"child-runs-beside-its-parent[{kind}]", f"[{kind}] a RUNNING invocation (mode {mode.value}) submits an invocation of its own task with its own key; another runner polls: "
+                                                                   f"the child was handed out: {child.invocation_id in handed}, its status {st}, run-time authorisation {authorised} - two invocations of one key would run at once", rep)
+            if mode != C.TASK and other.invocation_id not in handed:
+                ctx.report(f"child-with-another-key-blocked[{kind}]", f"[{kind}] a child with ANOTHER key (mode {mode.value}) was not handed out: {handed}", rep)
+            flush(app)
 
 
 def purge_vs_submission_probe(ctx: Ctx) -> None:
@@ -747,6 +806,7 @@ def run(ctx: Ctx) -> None:
         awaited_same_key_probe(ctx)
         second_process_probe(ctx)
         two_tasks_probe(ctx)
+        child_of_running_probe(ctx)
         lookup_fault_probe(ctx)
         purge_vs_submission_probe(ctx)
         two_pollers_probe(ctx)
